@@ -186,6 +186,19 @@ func (g *c05Gen) stmt() {
 		if !ok {
 			return
 		}
+		if v.t.n >= 3 && g.r.Intn(2) == 0 {
+			// the same comparison on slices of two different lengths
+			l1 := 1 + g.r.Intn(v.t.n-1)
+			l2 := 1 + g.r.Intn(v.t.n-1)
+			if l2 == l1 {
+				l2 = l1%(v.t.n-1) + 1
+			}
+			op := []string{"==", "!="}[g.r.Intn(2)]
+			g.feat["slice-compare-two-lengths"]++
+			g.def(c05Type{kind: 4}, fmt.Sprintf("%s[0:%d] %s %s[%d:%d]", v.name, l1, op, v.name, v.t.n-l1, v.t.n))
+			g.def(c05Type{kind: 4}, fmt.Sprintf("%s[0:%d] %s %s[%d:%d]", v.name, l2, op, v.name, v.t.n-l2, v.t.n))
+			return
+		}
 		from := g.r.Intn(v.t.n - 1)
 		to := from + 1 + g.r.Intn(v.t.n-from-1+1)
 		if to > v.t.n {
